@@ -45,6 +45,10 @@ CONSTANTS Peers,      \* responder nodes, e.g. {2, 3}; the requester is node 1
                       \* every protocol released the connection (ConnTaskExitOnIdle); the monitor also judges
                       \* the C04 clause "reported complete => delivered".  FALSE: a written response is on the wire
           Faults,     \* the link may fail (EClose); FALSE for the C04 clause, which is about links without fault
+          Stall,      \* the write phase of a request is its own step: after the substream opened the request is being
+                      \* written ("writing"); the write completes (WriteDone), or the link / peer stalls mid-frame with
+                      \* the connection staying up (WriteStall) and the write has to end in a timeout.  FALSE: the
+                      \* request is written in the step in which the substream opens
           Wedge,      \* the manager may leave a dial without any outcome (known C05 defect: negotiated
                       \* connection refused by the outgoing limit, peer stays Dialing, nothing reported)
           KeepHist,   \* record the stimulus history (behaviour generation)
@@ -60,6 +64,7 @@ KeepCtx == {"keepctx"}
 NoDrain == {"nodrain"}        \* the connection task exits on idle without draining what substreams have written
 CloseFirst == {"closefirst"}
 DrainAll == {"drainall"}      \* the drain in on_connection_closed swallows failed futures of other peers
+NoWriteTimeout == {"nowritetimeout"}   \* the write phase of a request is not bounded by the request timeout
 QueueAC == {"queueac"}        \* a Dial request that meets AlreadyConnected is queued in pending_dials instead of failing
 InvFilter == {"invfilter"}    \* on_connection_closed filters pending_outbound with the inverted predicate  \* on_connection_closed fails requests whose response has already arrived
 OnePeer == {p2}
@@ -87,7 +92,7 @@ VARIABLES
   sids,      \* request ids whose substream was requested from the live connection, not yet reported
   nc,        \* connections established so far
   \* responders
-  rq,        \* request id -> none | delivered | dropped | answered | rejected | over
+  rq,        \* request id -> none | writing | stalled | delivered | dropped | answered | rejected | over
   inb,       \* peer -> requests shown to its user and not yet answered / rejected
   tgt,       \* request id -> peer
   wire,      \* requests whose response has reached the socket (is readable by the requester's future)
@@ -243,9 +248,9 @@ OnConnEst(p, alive) ==
 \*   "closefirst": no drain at all (the code before 98aebad)
 \*   "drainall"  : failed futures of other peers are consumed and dropped (seeded change C13e)
 ReadyResp == IF "closefirst" \in Bugs THEN {} ELSE {r \in DOMAIN fut : rq[r] = "answered" /\ r \in wire}
-ReadyCanc == IF "closefirst" \in Bugs THEN {} ELSE {r \in DOMAIN fut \ ReadyResp : fut[r]}
+ReadyCanc == IF "closefirst" \in Bugs THEN {} ELSE {r \in DOMAIN fut \ ReadyResp : fut[r] /\ rq[r] \notin {"writing", "stalled"}}
 \* a future may be complete with a failure (timeout, substream closed, read error) - see PFut
-MayFail(r) == ~(~Faults /\ rq[r] = "answered" /\ ~(mgr[tgt[r]] # "conn" /\ r \notin wire))
+MayFail(r) == ~(rq[r] = "stalled" /\ "nowritetimeout" \in Bugs) /\ ~(~Faults /\ rq[r] = "answered" /\ ~(mgr[tgt[r]] # "conn" /\ r \notin wire))
 ReadyFailedOthers(p) == IF "closefirst" \in Bugs THEN {{}}
                         ELSE SUBSET {r \in DOMAIN fut \ (ReadyResp \cup ReadyCanc) : tgt[r] # p /\ MayFail(r)}
 Handled(r) == tgt[r] \in inpeers /\ r \in active[tgt[r]]     \* on_substream_event finds the request active
@@ -291,7 +296,7 @@ Deliver(M, r) ==
 \* on_outbound_substream: the request is written, the future waits for response / timeout / cancel
 OnSubOpened(r) ==
   /\ IF r \in DOMAIN pout THEN
-       LET d == Deliver(mon, r) IN
+       LET d == IF Stall THEN [m |-> mon, st |-> "writing", inb |-> inb] ELSE Deliver(mon, r) IN
        /\ pout' = Drop(pout, r)
        /\ cancels' = cancels \cup {r}
        /\ fut' = (r :> FALSE) @@ fut
@@ -323,6 +328,22 @@ PEvt ==
          [] e.k = "subfail"  -> OnSubOpenFail(e.x)
   /\ UNCHANGED <<cmdq, hist, nrid>>
 
+\* the write of the request completes: the responder's protocol gets it (or its bound refuses it)
+WriteDone(r) ==
+  /\ r \in DOMAIN fut /\ rq[r] = "writing"
+  /\ LET d == Deliver(mon, r) IN
+       /\ rq' = [rq EXCEPT ![r] = d.st]
+       /\ inb' = d.inb
+       /\ mon' = d.m
+  /\ UNCHANGED <<pvars, evars, tgt, wire, gone, kf, hist, nrid>>
+
+\* the link or the peer stalls mid-frame while the connection stays up: the write cannot complete any more
+WriteStall(r) ==
+  /\ Stall /\ r \in DOMAIN fut /\ rq[r] = "writing"
+  /\ rq' = [rq EXCEPT ![r] = "stalled"]
+  /\ hist' = H([a |-> "writestall", r |-> r])
+  /\ UNCHANGED <<pvars, evars, inb, tgt, wire, gone, mon, kf, nrid>>
+
 \* a request future completes and on_substream_event handles it
 \*   res: "resp" (the response arrived), "canceled" (cancel signal won the select!),
 \*        "err" (timeout, substream closed / reset, read error)
@@ -332,7 +353,10 @@ PFut(r, res) ==
   \* on a link without fault a timeout does not pre-empt a response whose send was reported complete,
   \* unless that response can no longer arrive
   /\ (res = "err" /\ ~Faults /\ rq[r] = "answered") => (mgr[tgt[r]] # "conn" /\ r \notin wire)
-  /\ res = "canceled" => fut[r]
+  \* the cancel signal is looked at only after the request has been written
+  /\ res = "canceled" => fut[r] /\ rq[r] \notin {"writing", "stalled"}
+  \* a write that cannot complete ends with the request timeout ("nowritetimeout": it does not)
+  /\ (res = "err" /\ rq[r] = "stalled") => "nowritetimeout" \notin Bugs
   /\ LET p == tgt[r] IN
        IF p \in inpeers /\ r \in active[p] THEN
          /\ active' = [active EXCEPT ![p] = @ \ {r}]
@@ -484,10 +508,10 @@ Internal ==
   \/ PCmd \/ PEvt
   \/ \E r \in Rids : \E res \in {"resp", "canceled", "err"} : PFut(r, res)
   \/ \E p \in Peers : EDialOk(p) \/ EDialFail(p) \/ EDialWedge(p) \/ MgrClosed(p)
-  \/ \E r \in Rids : ESubOpen(r) \/ ESubFail(r) \/ Pump(r)
+  \/ \E r \in Rids : ESubOpen(r) \/ ESubFail(r) \/ Pump(r) \/ WriteDone(r)
 Env ==
   \/ \E p \in Peers : EInbound(p) \/ EClose(p) \/ EForeignDialFail(p) \/ ConnTaskExitOnIdle(p)
-  \/ \E r \in Rids : RAnswer(r) \/ RReject(r)
+  \/ \E r \in Rids : RAnswer(r) \/ RReject(r) \/ WriteStall(r)
 
 Next == User \/ Internal \/ Env
 Spec == Init /\ [][Next]_vars
@@ -499,7 +523,9 @@ FairSpec == Spec /\ WF_vars(Internal)
 
 \* nothing is in flight at the requesting node
 Quiescent ==
-  /\ evq = <<>> /\ cmdq = <<>> /\ fut = <<>> /\ sids = {}
+  \* (a write that stalled and is not bounded by any timeout is not "in flight": nothing will ever happen to it)
+  /\ evq = <<>> /\ cmdq = <<>> /\ sids = {}
+  /\ \A r \in DOMAIN fut : rq[r] = "stalled" /\ "nowritetimeout" \in Bugs
   /\ \A p \in Peers : (mdial[p] => p \in wedged) /\ mgr[p] # "closing"
 
 \* the monitor never objects (second terminal event, foreign response, request seen twice,
